@@ -257,7 +257,8 @@ def decode(reply, prog):
             elif vt in DUMP_DECODERS:
                 res.dumps[idx] = DUMP_DECODERS[vt](r)
             else:
-                raise HarnessError("no decoder for slot type %d" % vt)
+                # convention: every registered extension type dumps exactly one blob
+                res.dumps[idx] = r.blob()
         else:
             raise HarnessError("bad reply tag %r" % t)
     return res
@@ -284,7 +285,7 @@ class Runner:
         env = dict(os.environ)
         env["ASAN_OPTIONS"] = "detect_leaks=0:abort_on_error=0:exitcode=77:allocator_may_return_null=1:" \
                               "detect_stack_use_after_return=0:handle_abort=1:symbolize=1"
-        env["UBSAN_OPTIONS"] = "print_stacktrace=0:halt_on_error=0:silence_unsigned_overflow=1"
+        env["UBSAN_OPTIONS"] = "print_stacktrace=1:halt_on_error=1:exitcode=76"
         env["MSAN_OPTIONS"] = "exitcode=78"
         env["TSAN_OPTIONS"] = "exitcode=79:halt_on_error=1"
         env.update(self.env)
@@ -402,6 +403,14 @@ def sanitizer_signature(stderr_tail):
     m = re.search(r"ERROR: (\w+Sanitizer): ([\w-]+)", stderr_tail)
     if m:
         kind = m.group(1) + ":" + m.group(2)
+    else:
+        m = re.search(r"([\w./-]+):(\d+):\d+: runtime error: ([^\n]*)", stderr_tail)
+        if m:
+            f = m.group(1)
+            q = f.find("/src/")
+            if q < 0:
+                q = f.find("/include/")
+            kind = "UBSan|%s:%s|%s" % (f[q + 1:] if q >= 0 else os.path.basename(f), m.group(2), m.group(3)[:120])
     frames = re.findall(r"#\d+ 0x[0-9a-f]+ in (\w+) ([^\s]+)", stderr_tail)
     lib = []
     for fn, loc in frames:
